@@ -26,6 +26,11 @@ func failf(kind, format string, args ...interface{}) *failure {
 // a plugin that counts what the property talks about
 type stressPlugin struct {
 	load, unload, onStop, connected, closed int64
+	// acceptGate: when set, the OnAccept hook reports the accepted connection on acceptSeen and
+	// waits until acceptRelease is closed (probe stop-vs-inflight-accept: a slow OnAccept hook)
+	acceptGate    int32
+	acceptSeen    chan struct{}
+	acceptRelease chan struct{}
 }
 
 func (p *stressPlugin) Load(server.Server) error { atomic.AddInt64(&p.load, 1); return nil }
@@ -35,6 +40,15 @@ func (p *stressPlugin) HookWrapper() server.HookWrapper {
 	return server.HookWrapper{
 		OnStopWrapper: func(pre server.OnStop) server.OnStop {
 			return func(ctx context.Context) { atomic.AddInt64(&p.onStop, 1); pre(ctx) }
+		},
+		OnAcceptWrapper: func(pre server.OnAccept) server.OnAccept {
+			return func(ctx context.Context, conn net.Conn) bool {
+				if atomic.CompareAndSwapInt32(&p.acceptGate, 1, 2) {
+					close(p.acceptSeen)
+					<-p.acceptRelease
+				}
+				return pre(ctx, conn)
+			}
 		},
 		OnConnectedWrapper: func(pre server.OnConnected) server.OnConnected {
 			return func(ctx context.Context, c server.Client) { atomic.AddInt64(&p.connected, 1); pre(ctx, c) }
@@ -78,7 +92,7 @@ func startBrokerWith(mod func(c *config.Config), wrap func(net.Listener) net.Lis
 	if mod != nil {
 		mod(&cfg)
 	}
-	plg := &stressPlugin{}
+	plg := &stressPlugin{acceptSeen: make(chan struct{}), acceptRelease: make(chan struct{})}
 	srv := server.New(server.WithTCPListener(ln), server.WithConfig(cfg), server.WithPlugin(plg))
 	b := &broker{ln: ln, addr: addr, srv: srv, plg: plg, runErr: make(chan error, 1)}
 	go func() { b.runErr <- srv.Run() }()
